@@ -9,9 +9,13 @@
    functions of the normaliser (Proofs/MarkerVars.v: step_vars over the open-recursion bodies).
    C12_only_implied / C12_only_identity: only() is implied by the marker and equivalent to it
    when the marker mentions only the kept names (hypothesis vmerge_sound as in C02).
-   NOT proved (direct oracle only): that exclude(name) leaves the meaning unchanged when the
-   marker does not mention name - MultiMarker.exclude drops a conjunct whose exclusion is
-   <empty>, so the identity needs a normal-form argument about the input. *)
+   C12_exclude_identity: exclude(name) leaves the meaning unchanged when the marker does not
+   mention name - for markers that are `alive`: every child of a conjunction, at any depth, is
+   satisfied by some environment, and no disjunction is empty (what the normal form gives).
+   MultiMarker.exclude drops a conjunct whose exclusion is <empty>, so WITHOUT that side
+   condition the statement is false in the model as in the code (a conjunction with a
+   contradictory, not yet collapsed child); the direct oracle checks the identity on every
+   generated marker. *)
 From Coq Require Import List Bool NArith Arith String Lia Permutation.
 From Verif Require Import PyRes Str Marker MarkerBase MarkerSingle MarkerOf MarkerSound MarkerOnly MarkerVars CorrMarker.
 Import ListNotations.
@@ -34,6 +38,11 @@ Section C12.
     monly vmerge vcontains perm fuel names m = Ret r -> wf m = true -> only_names names m = true ->
     forall e, good e -> meval e r = meval e m.
   Proof. intros H W. exact (proj2 (proj2 (monly_sound vmerge vcontains perm good vmerge_sound perm_perm fuel names m r H W))). Qed.
+
+  Theorem C12_exclude_identity fuel name m r :
+    mexclude vmerge vcontains perm fuel name m = Ret r -> wf m = true -> mentions name m = false -> alive good m ->
+    wf r = true /\ forall e, good e -> meval e r = meval e m.
+  Proof. exact (mexclude_identity vmerge vcontains perm good vmerge_sound perm_perm fuel name m r). Qed.
 
   Theorem C12_only_wf fuel names m r :
     monly vmerge vcontains perm fuel names m = Ret r -> wf m = true -> wf r = true.
@@ -66,5 +75,5 @@ Example C12_runs :
   = Ret (MAtom (mkAtom (of_string "os_name") MEq (of_string "a") false)).
 Proof. vm_compute. reflexivity. Qed.
 
-Definition C12_all := (C12_only_implied, C12_only_identity, C12_only_wf, C12_only_vars, C12_exclude_vars).
+Definition C12_all := (C12_only_implied, C12_only_identity, C12_only_wf, C12_only_vars, C12_exclude_vars, C12_exclude_identity).
 Redirect "C12.assumptions" Print Assumptions C12_all.
